@@ -357,9 +357,11 @@ impl Exch {
         let Some(act) = self.canonical_act(fine) else {
             return Err((self.k("canonical", "stuck"), format!("canonical schedule cannot leave {}", self.flow.name())));
         };
-        let before = Sys::key(self);
+        // progress is judged on what the caller can see (state, readiness, cursors, observations) - not on
+        // the object's internal state, which an implementation may change on every call (statistics)
+        let before = self.progress_key();
         self.step(&act)?;
-        if Sys::key(self) == before {
+        if self.progress_key() == before {
             // a late interim 100 may sit before the head we jumped to / a window too short to decide: let more arrive
             if self.arrived < self.avail() {
                 self.arrived = if fine { (self.arrived + 7).min(self.avail()) } else { self.avail() };
@@ -368,6 +370,32 @@ impl Exch {
             return Err((self.k("canonical", "no-progress"), format!("with everything arrived, {:?} makes no progress in {}", act, self.flow.name())));
         }
         Ok(())
+    }
+
+    /// What a caller can observe of the exchange's progress (no internal state of the object).
+    fn progress_key(&self) -> String {
+        let keep = match &self.flow {
+            AnyFlow::Await100(f) => Some(f.can_keep_await_100()),
+            _ => None,
+        };
+        format!(
+            "{}|{:?}|{:?}|arr={}|con={}|msg={}|ho={}|bi={}|bd={}|ref={}|g100={}|resp={}|rbo={}|red={:?}|fol={}",
+            self.flow.name(),
+            self.flow.can_proceed(),
+            keep,
+            self.arrived,
+            self.consumed,
+            self.msg_idx,
+            self.head_out,
+            self.body_in,
+            self.body_done,
+            self.refused,
+            self.got_100,
+            self.resp.is_some(),
+            self.resp_body_out,
+            self.redirect_verdict,
+            self.followed
+        )
     }
 
     /// end of the head of the message currently pending
